@@ -122,6 +122,26 @@ theorem order_independent (g : G) (es es' : List Nat) (hne : eval (fun _ => fals
     funext n; simp only [List.contains_eq_mem]; exact decide_eq_decide.2 (hset n)
   rw [this]
 
+/-
+  Open items (full statements kept visible; carried by correspondence + oracle on every run, see
+  design_notes/C07.md):
+
+  T2  group_completes_at_first_sat_vm :
+        ∀ g es k, (the Colang interpreter restricted to one flow, run on `expandMatch g ++ [send marker]`,
+                   emits the marker while processing es[k])  ↔  (markers g es)[k]? = some true
+      i.e. the fork / two-phase merge / WaitForHeads-counting head protocol of `slide` and
+      `_advance_head_front` refines `Dnf.step`.  Not proved: `markers` is an abstraction of the protocol
+      ("one head per atom per and-clause"); the real element list is tied to it structurally
+      (`readBack_expandMatch` below + `readBack` run on the real list) and behaviourally (end-to-end runs).
+
+  T3  await_group_same_formula :
+        `await g` / `when g` over flows f_i complete at es[k]  ↔  (markers g es')[k]? = some true
+        where es' reads "flow f_i finished" for atom i (and forgets flows that failed).
+      Not stated in Lean (`_expand_await_element` / `_expand_when_stmt_element` are not mirrored);
+      checked by execution only.  Inside this item lies the open finding on `when` groups that share a
+      flow Spec between clauses (known_findings.d/C07.json).
+-/
+
 /-! ## the expanded element list -/
 
 /-- The checker that is run on the REAL element list of every generated `match <group>` accepts the
